@@ -76,8 +76,10 @@ TRUSTED_BASE = [
     "(gen.compare_datasets + logs + metadata + check_dataset violations)",
 ]
 ASSUMPTIONS = [
-    "output paths differ from all input paths (a task asked to write onto "
-    "its own input removes it in setup_task_paths; not in scope)",
+    "the output path, after the .rtdc suffix has been appended, differs from "
+    "all input paths (a task asked to write onto its own input - also "
+    "`repack data.rtdc data` - removes it in setup_task_paths; excluded; "
+    "names that merely share the stem, like data.repacked, are in scope)",
     "split: no stale temporary file <stem>_NNNN.rtdc~ exists (the real task "
     "then refuses to run: OSError from export.hdf5 before any write to that "
     "file; exercised separately as a natural-failure scenario)",
@@ -153,13 +155,30 @@ def gen_cases(rng, thorough):
         cases.append(dict(task="split",
                           inputs=[rtdc_in(nev=nev, kinds=[
                               "scalar", "image", "mask"])],
-                          params=dict(split_events=se),
+                          params=dict(split_events=se,
+                                      same_dir=rng.random() < 0.5),
                           stale_out=[rng.random() < 0.5 for _ in range(nout)],
                           stale_tmp=[False] * nout))
         cases.append(dict(task="tdms2rtdc", fixtures=[TDMS_SMALL[rep % 2]],
                           params=dict(dir_mode=False),
                           stale_out=[rng.random() < 0.5],
                           stale_tmp=[rng.random() < 0.5]))
+    # requested output names with an arbitrary suffix whose stem is the stem
+    # of an input ("in0.repacked", "in0", "in0.b.c", "in0.RTDC", ...): legal,
+    # they do not alias the input (the suffix .rtdc is appended)
+    tasks = ["repack", "compress", "condense", "join"]
+    rng.shuffle(tasks)
+    for task in (tasks if thorough else tasks[:2]):
+        nin = 2 if task == "join" else 1
+        cases.append(dict(
+            task=task,
+            inputs=[rtdc_in(nev=rng.choice([5, 7]),
+                            kinds=["scalar", "image", "mask"], nscalars=11)
+                    for _ in range(nin)],
+            params={}, out_name="in%d%s" % (
+                rng.randrange(nin),
+                rng.choice([x for x in ALIAS_SUFFIXES if x != ""])),
+            stale_out=[rng.random() < 0.3], stale_tmp=[rng.random() < 0.3]))
     # several tdms files -> several outputs
     cases.append(dict(task="tdms2rtdc", fixtures=list(TDMS_SMALL),
                       params=dict(dir_mode=True),
@@ -170,6 +189,20 @@ def gen_cases(rng, thorough):
                           params=dict(store_ancillary_features=False),
                           stale_out=[True], stale_tmp=[False]))
     return cases
+
+
+ALIAS_SUFFIXES = [".repacked", ".joined", ".tmp", "", ".b.c", ".RTDC",
+                  ".rtdc.bak", ".v1.2", ".compressed", ".rtdc~"]
+
+
+def predicted_out_name(name):
+    """The output file name the name theorems (Props/C10.v:
+    C10_temp_name_is_output_tilde, Model/C10_paths.normalize_out) predict for
+    a requested name: unchanged when its suffix is ".rtdc", else ".rtdc" is
+    *appended*."""
+    if pathlib.PurePosixPath(name).suffix == ".rtdc":
+        return name
+    return name + ".rtdc"
 
 
 def _write_input(path, spec_in):
@@ -237,9 +270,11 @@ def build_template(case, root):
         all_inputs = list(ins)
         if task == "split":
             nout = len(case["stale_out"])
-            (w / "sp").mkdir()
-            outs = [w / "sp" / ("in0_%04d.rtdc" % (i + 1))
-                    for i in range(nout)]
+            spd = w if case["params"].get("same_dir") else w / "sp"
+            spd.mkdir(exist_ok=True)
+            outs = [spd / ("in0_%04d.rtdc" % (i + 1)) for i in range(nout)]
+        elif case.get("out_name"):
+            outs = [w / predicted_out_name(case["out_name"])]
         else:
             outs = [w / "out.rtdc"]
     temps = [o.with_suffix(".rtdc~") for o in outs]
@@ -254,6 +289,7 @@ def build_template(case, root):
             temps[i].write_bytes(b"\x89HDF\r\n\x1a\n" + b"stale junk " * 50)
     rel = lambda p: str(pathlib.Path(p).relative_to(w))  # noqa: E731
     return dict(ins=[rel(p) for p in ins], outs=[rel(p) for p in outs],
+                req=[case["out_name"]] if case.get("out_name") else None,
                 temps=[rel(p) for p in temps],
                 all_inputs=[rel(p) for p in all_inputs],
                 in_sha={rel(p): sha(p) for p in all_inputs},
@@ -277,6 +313,9 @@ def run_task(case, lay, w):
     outs = [w / p for p in lay["outs"]]
     task = case["task"]
     par = case["params"]
+    if lay.get("req"):
+        # what the user asked for; lay["outs"] is where the result must appear
+        outs = [w / p for p in lay["req"]]
     with contextlib.redirect_stdout(io.StringIO()):
         if task == "compress":
             cli.compress(path_in=ins[0], path_out=outs[0])
@@ -290,7 +329,9 @@ def run_task(case, lay, w):
         elif task == "join":
             cli.join(paths_in=list(ins), path_out=outs[0])
         elif task == "split":
-            cli.split(path_in=ins[0], path_out=outs[0].parent,
+            cli.split(path_in=ins[0],
+                      path_out=None if par.get("same_dir")
+                      else outs[0].parent,
                       split_events=par["split_events"])
         elif task == "tdms2rtdc":
             if par.get("dir_mode"):
@@ -786,7 +827,14 @@ def _run(run):
                     fails.append("task failed (%s) but left %s" % (
                         info["err"], info["lay"]["outs"][i]))
             if not all(ro["inputs_same"]):
-                fails.append("an input was modified by a failing run")
+                gone = [p for p, ok in zip(info["lay"]["all_inputs"],
+                                           ro["inputs_same"]) if not ok]
+                fails.append("the run failed (%s) and input %s was modified "
+                             "or removed (requested output %s, expected at "
+                             "%s)" % (info["err"][:150], gone,
+                                      info["lay"].get("req") or
+                                      info["lay"]["outs"],
+                                      info["lay"]["outs"]))
             if fails:
                 run.oracle_failure(cd, "; ".join(fails), None)
             continue
@@ -1065,10 +1113,50 @@ def names_check(run):
     d = pathlib.Path(run.scratch) / "names"
     d.mkdir(exist_ok=True)
     names, impl = [], []
-    for _ in range(n):
+    content = b"\x89HDF\r\n\x1a\n input data " * 7
+    for q in range(n):
         name = gen_name(run.rng)
-        pin, pout, ptmp = cli_common.setup_task_paths(
-            d / "in.rtdc", d / name, allowed_input_suffixes=[".rtdc"])
+        if q % 3 == 0:
+            # stem of the input, arbitrary suffix: legal, must not alias
+            name = "in" + run.rng.choice(ALIAS_SUFFIXES + [
+                "." + "".join(run.rng.choice("abrtdc.") for _ in range(
+                    run.rng.randint(1, 5))) + "x"])
+        (d / "in.rtdc").write_bytes(content)
+        lost = None
+        refused = None
+        try:
+            pin, pout, ptmp = cli_common.setup_task_paths(
+                d / "in.rtdc", d / name, allowed_input_suffixes=[".rtdc"])
+        except ValueError as e:
+            refused = e
+        if not (d / "in.rtdc").exists() or \
+                (d / "in.rtdc").read_bytes() != content:
+            lost = ("setup_task_paths(in.rtdc -> %r) removed or changed "
+                    "the input file in.rtdc" % name)
+        if refused is not None:
+            # refusing to run is fine when the output would be the input
+            if lost or predicted_out_name(name) != "in.rtdc":
+                run.oracle_failure(
+                    dict(kind="names", name=name),
+                    "setup_task_paths refused the legal output name %r (%r)%s"
+                    % (name, refused, "; " + lost if lost else ""), None)
+            run.count("names:refused")
+            continue
+        if lost and predicted_out_name(name) == "in.rtdc":
+            # the requested name *plus* ".rtdc" is the input itself (e.g.
+            # output "in" for input "in.rtdc"): the user asked to overwrite
+            # the input; excluded by ASSUMPTIONS (a fix is proposed in
+            # fixes_proposed/C10-output-aliases-input.diff)
+            run.count("names:normalised-output-is-the-input(excluded)")
+            lost = None
+        if lost:
+            run.oracle_failure(dict(kind="names", name=name), lost, None)
+        if pout.name != predicted_out_name(name):
+            run.oracle_failure(
+                dict(kind="names", name=name),
+                "requested output %r is written to %r, the name theorems "
+                "predict %r" % (name, pout.name, predicted_out_name(name)),
+                None)
         names.append(name)
         impl.append([ord(c) for c in pout.name] + [-1]
                     + [ord(c) for c in ptmp.name])
@@ -1332,12 +1420,26 @@ def replay(payload):
     case = payload.get("case")
     if case and case.get("kind") == "names":
         from dclab.cli import common as cli_common
-        d = pathlib.Path("/nonexistent-verif-dir")
-        pin, pout, ptmp = cli_common.setup_task_paths(
-            d / "in.rtdc", d / case["name"], allowed_input_suffixes=[".rtdc"])
-        print("name %r -> output %r, temporary %r" % (
-            case["name"], pout.name, ptmp.name))
-        bad = ptmp.name != pout.name + "~" or pout.suffix != ".rtdc"
+        d = pathlib.Path(tempfile.mkdtemp(
+            prefix="verif-C10-names-",
+            dir=os.environ.get("VERIF_SCRATCH", "/var/tmp")))
+        try:
+            (d / "in.rtdc").write_bytes(b"input data")
+            pin, pout, ptmp = cli_common.setup_task_paths(
+                d / "in.rtdc", d / case["name"],
+                allowed_input_suffixes=[".rtdc"])
+            print("input in.rtdc, requested output %r -> output %r, "
+                  "temporary %r (predicted output %r)" % (
+                      case["name"], pout.name, ptmp.name,
+                      predicted_out_name(case["name"])))
+            gone = not (d / "in.rtdc").exists()
+            if gone:
+                print("the input file in.rtdc was removed by "
+                      "setup_task_paths")
+            bad = (gone or ptmp.name != pout.name + "~"
+                   or pout.name != predicted_out_name(case["name"]))
+        finally:
+            shutil.rmtree(d, ignore_errors=True)
         print("FAILS" if bad else "passes on the current tree")
         return 1 if bad else 0
     if not case or "task" not in case:
@@ -1357,7 +1459,17 @@ def replay(payload):
             bad = bool(res["fails"])
         elif case.get("k", -1) < 0:
             print("final state:", info["ref_obs"])
-            bad = info["err"] is not None
+            ro = info["ref_obs"]
+            bad = (not all(ro["inputs_same"]) or bool(ro["unexpected"])
+                   or (info["err"] is None and (0 in ro["out"]
+                                                or any(ro["tmp"]))))
+            if not all(ro["inputs_same"]):
+                print("FAILS: an input file was modified or removed "
+                      "(requested output %s, expected at %s)" % (
+                          info["lay"].get("req") or info["lay"]["outs"],
+                          info["lay"]["outs"]))
+            elif bad:
+                print("FAILS: outputs/temporary files not as required")
         else:
             if case["kind"] in ("sigkill", "sigint", "sigterm"):
                 res = sigkill_job((0, case["k"], case["kind"]))
@@ -1437,7 +1549,7 @@ def search(run, broken):
                     self.found = dict(case=c, desc=d)
         r = R()
         t_end = time.time() + float(os.environ.get(
-            "VERIF_C10_SEARCH_SECS", "900" if run.thorough else "150"))
+            "VERIF_C10_SEARCH_SECS", "900" if run.thorough else "30"))
         for res in _POOL.imap_unordered(
                 _job, [("fault_job", j) for j in jobs], chunksize=4):
             if "crash" in res:
